@@ -707,3 +707,45 @@ def loop_as_listcomp(fn: ast.FunctionDef, name: str) -> ast.ListComp | None:
     ast.copy_location(comp, lp)
     ast.fix_missing_locations(comp)
     return comp
+
+
+def str_parts(e: ast.AST) -> list[str] | None:
+    """A string-building expression (f-string, `+` of strings) as its flat list of parts: literals as repr, other parts as
+    normalised source; adjacent literals merged.  None if e is not recognisably a string concatenation."""
+    def parts(x: ast.AST) -> list | None:
+        if isinstance(x, ast.Constant) and isinstance(x.value, str):
+            return [("lit", x.value)]
+        if isinstance(x, ast.JoinedStr):
+            out: list = []
+            for v in x.values:
+                if isinstance(v, ast.Constant) and isinstance(v.value, str):
+                    out.append(("lit", v.value))
+                elif isinstance(v, ast.FormattedValue) and v.conversion == -1 and v.format_spec is None:
+                    sub = parts(v.value)
+                    out.extend(sub if sub is not None else [("expr", norm(v.value))])
+                else:
+                    return None
+            return out
+        if isinstance(x, ast.BinOp) and isinstance(x.op, ast.Add):
+            l_, r_ = parts(x.left), parts(x.right)
+            if l_ is None and r_ is None:
+                return None
+            return (l_ if l_ is not None else [("expr", norm(x.left))]) + (r_ if r_ is not None else [("expr", norm(x.right))])
+        return None
+
+    ps = parts(e)
+    if ps is None:
+        return None
+    out: list[str] = []
+    lit = ""
+    for kind, v in ps:
+        if kind == "lit":
+            lit += v
+        else:
+            if lit:
+                out.append(repr(lit))
+                lit = ""
+            out.append(v)
+    if lit:
+        out.append(repr(lit))
+    return out
